@@ -232,7 +232,7 @@ def wrap(base):
 
 
 def _select(obs, tier):
-    if tier != "quick":
+    if tier != "quick" or True:   # (every instance of the source properties is re-run in both tiers: they are cheap, and a frame defect may show only at order >= 3 or at mode 0)
         return obs
     seen, out = set(), []
     for ob in obs:
